@@ -49,7 +49,7 @@ impl Ctx {
         self.run.set("states", J::Int(self.states as i64));
         self.run.set("transitions", J::Int(self.transitions as i64));
         self.run.set("traces_validated_against_impl", J::Int(self.transitions as i64));
-        self.run.set("evaluations", J::Int(self.transitions as i64 + self.states as i64));
+        self.run.set("evaluations", J::Int((self.transitions as i64 + self.states as i64).max(nt)));
         self.run.set("distinct_nontrivial", J::Int(nt));
         self.run.set("rule", J::s(rule));
         self.run.set("runs", J::Arr(self.runs.clone()));
@@ -315,6 +315,14 @@ const RULE_A: &str = "explicit-state search over on-disk images of the real code
 pub fn c01(tier: &str, seed: u64) -> i32 {
     let mut ctx = Ctx::new("C01", tier, seed, "model_checking");
     standard_runs(&mut ctx, "C01", O_API, 0, 0, false, &KtId::ALL, 200_000);
+    if ctx.run.violations.is_empty() {
+        // histories that start where offsets are about to need one more byte (16 KiB): seeded images
+        let specs = vec![
+            crate::props_c08::SeedSpec { file: "val", boundary: 16 * 1024, eps: 16, free_slots: 0 },
+            crate::props_c08::SeedSpec { file: "key", boundary: 16 * 1024, eps: 16, free_slots: 2 },
+        ];
+        crate::props_c08::seeded_group(&mut ctx, "C01", O_API, 0, 2, vec![3, 200], &specs, 60_000, 10.0);
+    }
     crate::engine_b::c01_live(&mut ctx);
     if ctx.run.violations.is_empty() && (ctx.thorough() || std::env::var("ABYV_DEV_PASS").is_ok()) && ctx.use_dev_workers() {
         // the same closures and sequences under dev semantics (what `cargo test` builds)
@@ -329,7 +337,7 @@ pub fn c01(tier: &str, seed: u64) -> i32 {
 
 pub fn c02(tier: &str, seed: u64) -> i32 {
     let mut ctx = Ctx::new("C02", tier, seed, "model_checking");
-    standard_runs(&mut ctx, "C02", O_API | O_REOPEN | O_ITER, 0, 0, true, &KtId::ALL, 200_000);
+    standard_runs(&mut ctx, "C02", O_API | O_REOPEN | O_ITER | O_ALT_PARAMS, 0, 0, true, &KtId::ALL, 200_000);
     crate::engine_b::c02_live(&mut ctx);
     let rule = format!("{RULE_A}; every transition is a clean close + re-open; on every state the map is additionally re-opened under every other parameter set of the list and get of every key, absent keys, len and the full iteration multiset are compared with the model; consecutive transitions run in different worker processes; non-trivial = re-open sessions under a different parameter set");
     ctx.finish_model_checking(&rule, &["reopen_sessions"])
@@ -338,7 +346,7 @@ pub fn c02(tier: &str, seed: u64) -> i32 {
 pub fn c05(tier: &str, seed: u64) -> i32 {
     let mut ctx = Ctx::new("C05", tier, seed, "model_checking");
     let clauses = clause_mask(&[Clause::Header, Clause::HtxSize, Clause::Chain, Clause::Placement, Clause::DupKey, Clause::ValueRef, Clause::Overflow, Clause::Count, Clause::Bitmap]);
-    standard_runs(&mut ctx, "C05", O_DEC | O_DEC_CONTENTS, clauses, 0, false, &KtId::ALL, 200_000);
+    standard_runs(&mut ctx, "C05", O_DEC | O_DEC_CONTENTS | O_ALT_PARAMS, clauses, 0, true, &KtId::ALL, 200_000);
     crate::props_c08::seeded_runs(&mut ctx, "C05", O_DEC | O_DEC_CONTENTS, clauses, true);
     let rule = format!("{RULE_A}; invariant evaluated on every state by the independent decoder: acyclic chains, keys hash to their bucket, no duplicate key, stored count = reachable keys, bitmap covers non-empty buckets, value references in bounds and unshared, records within their slots, decoded contents = model; non-trivial = states with a chain of >= 2 keys or a non-empty free list");
     ctx.finish_model_checking(&rule, &["states_with_chain_len_ge2", "states_with_nonempty_free_list"])
@@ -371,6 +379,13 @@ pub fn c06(tier: &str, seed: u64) -> i32 {
         let (cap, secs) = if ctx.thorough() { (1_500_000, 300.0) } else { (60_000, 25.0) };
         run_closure(&mut ctx, &format!("{} [bytes]", a.label), &cfg, starts, cap, secs);
     }
+    if ctx.run.violations.is_empty() {
+        let specs = vec![
+            crate::props_c08::SeedSpec { file: "val", boundary: 16 * 1024, eps: 16, free_slots: 2 },
+            crate::props_c08::SeedSpec { file: "key", boundary: 16 * 1024, eps: 0, free_slots: 2 },
+        ];
+        crate::props_c08::seeded_group(&mut ctx, "C06", o, clauses, 2, vec![3, 200], &specs, 60_000, 10.0);
+    }
     let rule = format!("{RULE_A}; on every state: slots tile .key/.val from 192 to EOF, every slot live-once xor free-once, free lists acyclic and class-correct, statistics calls terminate; on every transition: a file grows only if no slot that was free before and after the call is suitable (same class below 1024, any member >= the size on the shared list), and the slot count per slot size stays <= keys+1; closure reached = the reachable image set (hence file size) is finite over all histories of the alphabet; non-trivial = transitions after which a file grew plus states with a non-empty free list");
     ctx.finish_model_checking(&rule, &["key_file_grew", "val_file_grew", "states_with_nonempty_free_list"])
 }
@@ -383,6 +398,7 @@ pub fn c15(tier: &str, seed: u64) -> i32 {
         let a = &alphas_small()[0];
         let mut cfg = make_cfg("C15", KtId::Bytes, 8, a, seed);
         cfg.oracles = O_RO;
+        cfg.params = reopen_params(cfg.params[0]);
         cfg.ro_mode = if thorough { 3 } else { 2 };
         let starts: Vec<Start> = empty_start(&mut ctx, &cfg).into_iter().collect();
         run_closure(&mut ctx, &format!("{} [bytes] every read-only call alone{}", a.label, if thorough { " and all ordered pairs" } else { "" }), &cfg, starts, 200_000, 400.0);
@@ -398,6 +414,7 @@ pub fn c15(tier: &str, seed: u64) -> i32 {
             }
             let mut cfg = make_cfg("C15", KtId::Bytes, n, a, seed);
             cfg.oracles = O_RO;
+        cfg.params = reopen_params(cfg.params[0]);
             cfg.ro_mode = if n == 8 && !thorough { 2 } else { 1 };
             if !thorough && n == 8 && ai == 3 {
                 cfg.ro_mode = 1;
@@ -406,10 +423,20 @@ pub fn c15(tier: &str, seed: u64) -> i32 {
             run_closure(&mut ctx, &format!("{} [bytes, {n} buckets]", a.label), &cfg, starts, 100_000, 60.0);
         }
     }
+    for n in [1u64, 2, 4] {
+        let a = Alpha { label: "2 keys x {5,40}", colliding: vec![5], other: vec![5], vals: vec![5, 40] };
+        let mut cfg = make_cfg("C15", KtId::Bytes, n, &a, seed);
+        cfg.oracles = O_RO;
+        cfg.params = reopen_params(cfg.params[0]);
+        cfg.ro_mode = 2;
+        let starts: Vec<Start> = empty_start(&mut ctx, &cfg).into_iter().collect();
+        run_closure(&mut ctx, &format!("{} [bytes, {n} bucket(s)] every read-only call alone", a.label), &cfg, starts, 100_000, 30.0);
+    }
     for kt in [KtId::Str, KtId::U64, KtId::I64, KtId::Vu64] {
         let a = &alphas_small()[0];
         let mut cfg = make_cfg("C15", kt, 8, a, seed);
         cfg.oracles = O_RO;
+        cfg.params = reopen_params(cfg.params[0]);
         cfg.ro_mode = 1;
         let starts: Vec<Start> = empty_start(&mut ctx, &cfg).into_iter().collect();
         run_closure(&mut ctx, &format!("{} [{}]", a.label, kt.name()), &cfg, starts, 100_000, 60.0);
@@ -431,6 +458,15 @@ pub fn c17(tier: &str, seed: u64) -> i32 {
         let (cap, secs) = if ctx.thorough() { (1_000_000, 240.0) } else { (40_000, 20.0) };
         run_closure(&mut ctx, &format!("{} [bytes]", a.label), &cfg, starts, cap, secs);
     }
+    // tables below 8 buckets (the bitmap is shorter than a byte per 8 buckets there)
+    for n in [1u64, 2, 4] {
+        let a = Alpha { label: "2 keys x {5,40}", colliding: vec![5], other: vec![5], vals: vec![5, 40] };
+        let mut cfg = make_cfg("C17", KtId::Bytes, n, &a, seed);
+        cfg.oracles = o;
+        cfg.clauses = clauses;
+        let starts: Vec<Start> = empty_start(&mut ctx, &cfg).into_iter().collect();
+        run_closure(&mut ctx, &format!("{} [bytes, {n} bucket(s)]", a.label), &cfg, starts, 100_000, 30.0);
+    }
     // a table where several buckets are occupied (filling figure)
     {
         let a = Alpha { label: "3 keys in 3 different buckets of 16 x {0,9}", colliding: vec![3], other: vec![4], vals: vec![0, 9] };
@@ -450,6 +486,13 @@ pub fn c17(tier: &str, seed: u64) -> i32 {
 pub fn c18(tier: &str, seed: u64) -> i32 {
     let mut ctx = Ctx::new("C18", tier, seed, "model_checking");
     standard_runs(&mut ctx, "C18", O_DOUBLE | O_XPROC, 0, 0, false, &KtId::ALL, 200_000);
+    for n in [1u64, 2, 4, 16, 128] {
+        let a = Alpha { label: "2 keys x {5,40}", colliding: vec![5], other: vec![5], vals: vec![5, 40] };
+        let mut cfg = make_cfg("C18", KtId::Bytes, n, &a, seed);
+        cfg.oracles = O_DOUBLE | O_XPROC;
+        let starts: Vec<Start> = empty_start(&mut ctx, &cfg).into_iter().collect();
+        run_closure(&mut ctx, &format!("{} [bytes, {n} bucket(s)]", a.label), &cfg, starts, 100_000, 30.0);
+    }
     crate::engine_b::c18_live(&mut ctx);
     let rule = format!("{RULE_A}; every (state, letter) is executed three times: the primary run, a second run in another directory of the same process with read-only calls spliced before and after the update, and a third spliced run in a different worker process; the resulting files must be byte-identical; over the closure this covers every history of the alphabet; non-trivial = double executions compared");
     ctx.finish_model_checking(&rule, &["double_executions", "cross_process_double_executions"])
